@@ -1,4 +1,96 @@
-(* C01 - placeholder until the theorems are in place. *)
-Require Import RQ.Base.
-Theorem C01_placeholder : True. Proof. exact I. Qed.
-Print Assumptions C01_placeholder.
+(* C01 - Polygon fill coverage equals the exact 4x4 supersampling model.
+   Proved on the model of Rasterizer::{add_edge, rasterize} and the two mask blitters (RasterProofs.v) for every
+   rasteriser that received straight edges, every surface size, every position relative to the surface, both winding
+   rules.  The path from DrawTarget::fill to the edge list (apply_path, quarter-grid conversion) and from the mask to
+   the pixel (composite with a solid source) is tied by the correspondence and by the rational oracle of the C01 check;
+   hence the name _partial on the two top theorems: they speak about the coverage mask, not the final pixel. *)
+Require Import RQ.Base RQ.Rect RQ.Raster RQ.RasterProofs.
+
+(* (1) antialiased: every byte of the coverage mask is min(255,16K) or 16K-1, K = number of quarter cells of the pixel
+   (4 sample rows x 4 cells) that are covered; "covered" (cov) is the winding rule applied to the edges live on that
+   sample row, each at its closed-form crossing rounded to the nearest quarter pixel.  Never an error. *)
+Theorem C01_coverage_antialiased_partial : forall (rule : winding_rule) (W H : Z) (gs : list seg),
+  0 <= H ->
+  let r := add_segs (rast_new W H) gs in
+  let b := get_bounds r in
+  0 <= r_w b -> 0 <= r_h b ->
+  exists r' buf',
+    rasterize blit_super rule r (maskbuf_new (x0 b) (y0 b) (r_w b) (r_h b))
+      = Ok (r', mk_maskbuf (x0 b * 4) (y0 b * 4) (r_w b) buf') /\
+    length buf' = Z.to_nat (r_w b * r_h b + 1) /\ bytes_ok buf' /\
+    forall q p, 0 <= q < r_h b -> 0 <= p < r_w b ->
+      let K := Kpix rule (y0 b * 4) (r_starts r) (x0 b * 4) (y0 b * 4) q p in
+      0 <= K <= 16 /\
+      (zn buf' (q * r_w b + p) = Z.min 255 (16 * K) \/ zn buf' (q * r_w b + p) = 16 * K - 1).
+Proof. exact rasterize_lines_coverage. Qed.
+Print Assumptions C01_coverage_antialiased_partial.
+
+(* (2) aliased: only the first sample row counts; a pixel is 255 exactly when quarter cell 4p+3 of that row is covered
+   (which is floor(x_start) <= p < floor(x_end) for the span containing it), every other pixel stays 0 *)
+Theorem C01_coverage_aliased_partial : forall (rule : winding_rule) (W H : Z) (gs : list seg),
+  0 <= H ->
+  let r := add_segs (rast_new W H) gs in
+  let b := get_bounds r in
+  0 <= r_w b -> 0 <= r_h b ->
+  exists r' buf',
+    rasterize blit_mask rule r (maskbuf_new (x0 b) (y0 b) (r_w b) (r_h b))
+      = Ok (r', mk_maskbuf (x0 b * 4) (y0 b * 4) (r_w b) buf') /\
+    length buf' = Z.to_nat (r_w b * r_h b + 1) /\
+    forall q p, 0 <= q < r_h b -> 0 <= p < r_w b ->
+      zn buf' (q * r_w b + p) =
+        if cov rule (live (y0 b * 4) (r_starts r) (y0 b * 4 + 4 * q)) (4 * p + 3 + x0 b * 4) then 255 else 0.
+Proof. exact rasterize_lines_coverage_aliased. Qed.
+Print Assumptions C01_coverage_aliased_partial.
+
+(* (3) what "covered" means: the spans of a sample row are exactly the cells where the winding rule holds for the sum
+   of the windings of the edges whose rounded crossing is at or left of the cell *)
+Theorem C01_spans_are_winding_rule : forall rule w4 l c, sorted l -> 0 <= c < w4 ->
+  ((exists s, In s (scan_edges rule w4 l) /\ fst s <= c < snd s) <->
+   inside rule (wsum l c) = true /\ (exists e, In e l /\ c < rnd (e_fullx e))).
+Proof. exact scan_edges_spec. Qed.
+Print Assumptions C01_spans_are_winding_rule.
+
+(* (4) every live edge sits at its closed-form position F y = x1*2^14 + (y-y1) * quot((x2-x1)*2^14, y2-y1) ... *)
+Theorem C01_live_edges_closed_form : forall r y0 y e, lines_inv r -> In e (live y0 (r_starts r) y) ->
+  exists x1 y1 x2 y2 wd,
+    y1 < y2 /\ Z.max y1 0 <= y < y2 /\ e_wind e = wd /\
+    e_fullx e = x1 * 16384 + (y - y1) * Z.quot ((x2 - x1) * 16384) (y2 - y1).
+Proof. exact lines_live_closed_form. Qed.
+Print Assumptions C01_live_edges_closed_form.
+
+(* (5) ... which differs from the exact crossing x1 + (y-y1)(x2-x1)/(y2-y1) (in units of 2^-16 pixel) by at most
+   (y-y1) such units, and never leaves the segment's x range *)
+Theorem C01_crossing_error : forall x1 y1 x2 y2, y1 < y2 -> forall y, y1 <= y <= y2 ->
+  Z.abs ((x1 * 16384 + (y - y1) * Z.quot ((x2 - x1) * 16384) (y2 - y1)) * (y2 - y1)
+         - (x1 * 16384 * (y2 - y1) + (y - y1) * (x2 - x1) * 16384)) <= (y - y1) * (y2 - y1).
+Proof. exact crossing_error. Qed.
+Print Assumptions C01_crossing_error.
+
+(* (6) the accumulator: four sub-rows of sorted disjoint spans give 16K or 16K-1 exactly as stated, no u8 overflow *)
+Theorem C01_pixel_row_accumulator : forall mx my w py buf sp0 sp1 sp2 sp3,
+  let st := py * w in
+  0 <= w -> 0 <= py -> st + w < zlen buf -> bytes_ok buf -> (forall p, 0 <= p < w -> zn buf (st + p) = 0) ->
+  spans_ok mx w sp0 -> spans_ok mx w sp1 -> spans_ok mx w sp2 -> spans_ok mx w sp3 ->
+  exists buf',
+    blit_pixel_row (mk_maskbuf mx my w buf) (my + 4 * py) sp0 sp1 sp2 sp3 = Ok (mk_maskbuf mx my w buf') /\
+    length buf' = length buf /\ bytes_ok buf' /\
+    (forall p, 0 <= p < w ->
+      let K := kcov mx sp0 p + kcov mx sp1 p + kcov mx sp2 p + kcov mx sp3 p in
+      0 <= K <= 16 /\
+      zn buf' (st + p) = (if hasint p (map (rel mx w) sp3) then 16 * K - 1 else Z.min 255 (16 * K)) /\
+      (zn buf' (st + p) = Z.min 255 (16 * K) \/ zn buf' (st + p) = 16 * K - 1)) /\
+    (forall i, 0 <= i < zlen buf -> i < st \/ st + w <= i -> zn buf' i = zn buf i).
+Proof. exact pixel_row_coverage. Qed.
+Print Assumptions C01_pixel_row_accumulator.
+
+(* non-vacuity: the design-phase triangle (0.25,0.5) (3.5,1.25) (1.0,3.75) on a 4x4 surface *)
+Example C01_triangle :
+  let r := add_segs (rast_new 4 4) example_tri in
+  get_bounds r = mkrect 0 0 4 4 /\
+  (match rasterize blit_super NonZero r (maskbuf_new 0 0 4 4) with Ok (_, m) => m_buf m | Err _ => [] end)
+    = [48; 16; 0; 0;  144; 255; 223; 48;  80; 255; 96; 0;  16; 96; 0; 0;  0] /\
+  map (fun q => map (fun p => Kpix NonZero 0 (r_starts r) 0 0 q p) [0; 1; 2; 3]) [0; 1; 2; 3]
+    = [[3; 1; 0; 0]; [9; 16; 14; 3]; [5; 16; 6; 0]; [1; 6; 0; 0]] /\
+  (match rasterize blit_mask NonZero r (maskbuf_new 0 0 4 4) with Ok (_, m) => m_buf m | Err _ => [] end)
+    = [0; 0; 0; 0;  255; 255; 0; 0;  255; 255; 0; 0;  255; 0; 0; 0;  0].
+Proof. exact example_tri_mask. Qed.
